@@ -3,8 +3,8 @@ package main
 import (
 	"fmt"
 
-	lt "github.com/lianxiangcloud/linkchain/libs/cryptonote/types"
 	"github.com/lianxiangcloud/linkchain/libs/cryptonote/ringct"
+	lt "github.com/lianxiangcloud/linkchain/libs/cryptonote/types"
 	"github.com/lianxiangcloud/linkchain/libs/cryptonote/xcrypto"
 	_ "verif/shim/goshim"
 )
